@@ -130,10 +130,14 @@ def showKey : Key → String
   | .txHash tx => s!"H/{tx}"
   | .header bn h f => s!"B/{bn}/{h}/{if f then "f" else "u"}"
 
-def showTip (s : Store) : String :=
-  match tip s with
-  | some (n, h) => s!"tip {n}.{h}"
-  | none => "tip none"
+def showTipAns (s : Store) : String :=
+  match tipAsCode s with
+  | .header n h => s!"{n}.{h}"
+  | .residue n => s!"{n}.?"
+  | .garbage => "garbage"
+  | .none => "none"
+
+def showTip (s : Store) : String := "tip " ++ showTipAns s
 
 def showCellAns (a : CellAns) : String :=
   s!"{showOp a.op}@{a.cell.bn}.{a.cell.txIdx}:{a.cell.out.cap}:{a.cell.out.data.length}"
@@ -204,11 +208,11 @@ def step (st : St) (ts : List String) : St × String :=
   | "cap" :: kind :: q :: mode :: f =>
     match parseKind? kind, parseScript? q, parseMode? mode, parseFilter? f with
     | some k, some q, some m, some f =>
-      match tip st.store with
-      | none => (st, "cap none")
-      | some (n, h) =>
+      match tipAsCode st.store with
+      | .none => (st, "cap none")
+      | _ =>
         match getCellsCapacity st.store k q m f with
-        | some c => (st, s!"cap {c} {n}.{h}")
+        | some c => (st, s!"cap {c} {showTipAns st.store}")
         | none => (st, "panic")
     | _, _, _, _ => (st, "bad-op")
   | ["dump"] =>
